@@ -250,7 +250,12 @@ func encCase(g *hc.Gen, o *hc.Out) {
 	case option.LTSV:
 		line = fmt.Sprintf("c02.enc ltsv %s %s", lbName(op.lb), tableToks(t, false))
 	case option.FIXED:
-		line = fmt.Sprintf("c02.enc fixed %s %s %s", lbName(op.lb), b01(op.withoutHeader), tableToks(t, true))
+		if g.Intn(2) == 0 {
+			op.positions = genPositions(g, t, op)
+			line = fmt.Sprintf("c02.encp fixed %s %s %s %s", lbName(op.lb), b01(op.withoutHeader), posToks(op.positions), tableToks(t, true))
+		} else {
+			line = fmt.Sprintf("c02.enc fixed %s %s %s", lbName(op.lb), b01(op.withoutHeader), tableToks(t, true))
+		}
 	}
 	b, err := realEncode(t, op)
 	impl := "E"
@@ -267,8 +272,43 @@ func encCase(g *hc.Gen, o *hc.Out) {
 	o.NonTrivial("enc|" + op.sig() + "|" + textClasses(t) + "|" + dimClass(t) + "|" + b01(err != nil))
 }
 
-var encFormats = []option.Format{option.CSV, option.CSV, option.TSV, option.LTSV}
-var decFormats = []option.Format{option.CSV, option.CSV, option.TSV, option.LTSV}
+var encFormats = []option.Format{option.CSV, option.CSV, option.TSV, option.LTSV, option.FIXED}
+var decFormats = []option.Format{option.CSV, option.CSV, option.TSV, option.LTSV, option.FIXED}
+
+func posToks(p []int) string {
+	s := make([]string, 0, len(p)+1)
+	s = append(s, strconv.Itoa(len(p)))
+	for _, v := range p {
+		s = append(s, strconv.Itoa(v))
+	}
+	return strings.Join(s, " ")
+}
+
+// genPositions: explicit delimiter positions from the measured widths plus slack (sometimes too
+// narrow, rarely not increasing)
+func genPositions(g *hc.Gen, t *table, op opts) []int {
+	start := 0
+	var ps []int
+	for j := range t.header {
+		w := 1
+		if !op.withoutHeader {
+			w = max(w, text.ByteSize(t.header[j], op.enc))
+		}
+		for _, row := range t.rows {
+			w = max(w, text.ByteSize(row[j].text, op.enc))
+		}
+		w += g.Intn(3)
+		if g.Intn(25) == 0 && w > 1 {
+			w--
+		}
+		if g.Intn(60) == 0 {
+			w = 0
+		}
+		start += w
+		ps = append(ps, start)
+	}
+	return ps
+}
 
 // ---------- stream dec ----------
 
@@ -315,11 +355,35 @@ func decCase(g *hc.Gen, o *hc.Out, dir string) {
 			data = append(data, soup[g.Intn(len(soup))]...)
 		}
 		src = "soup"
+		if f == option.FIXED {
+			p := 0
+			for k := 1 + g.Intn(3); k > 0; k-- {
+				p += g.Intn(4)
+				if g.Intn(10) != 0 {
+					p++
+				}
+				op.positions = append(op.positions, p)
+			}
+		}
 	default:
-		t := genTable(g, genRisk(g), f != option.CSV && f != option.TSV, 6)
+		rk := genRisk(g)
+		if f == option.LTSV && g.Intn(3) != 0 {
+			rk = risk{delims: g.Intn(3) == 0}
+		}
+		t := genTable(g, rk, f != option.CSV && f != option.TSV, 6)
+		if f == option.FIXED {
+			op.positions = genPositions(g, t, op)
+			if g.Intn(8) == 0 && len(op.positions) > 1 {
+				op.positions = op.positions[:len(op.positions)-1]
+			}
+		}
 		wo := op
 		if g.Intn(5) == 0 {
 			wo = genOpts(g, f) // written under other settings than it is read with
+			wo.positions = op.positions
+			if g.Intn(2) == 0 {
+				wo.positions = nil
+			}
 		}
 		wo.enc = text.UTF8
 		b, err := realEncode(t, wo)
@@ -347,6 +411,8 @@ func decCase(g *hc.Gen, o *hc.Out, dir string) {
 		line = fmt.Sprintf("c02.dec csv %d %s %s %s %s", op.delim, b01(op.withoutHeader), b01(op.withoutNull), b01(op.allowUneven), hexTok(txt))
 	case option.LTSV:
 		line = fmt.Sprintf("c02.dec ltsv %s %s", b01(op.withoutNull), hexTok(txt))
+	case option.FIXED:
+		line = fmt.Sprintf("c02.dec fixed %s %s %s %s", b01(op.withoutHeader), b01(op.withoutNull), posToks(op.positions), hexTok(txt))
 	}
 	v, lerr := realLoad(dir, "d"+fmtExt(f), data, op, text.UTF8, true)
 	impl := "E"
@@ -693,23 +759,7 @@ func rtCase(g *hc.Gen, o *hc.Out, dir string) {
 		}
 	}
 	if f == option.FIXED && g.Intn(3) == 0 {
-		// explicit positions: measured widths plus slack (sometimes too narrow)
-		start := 0
-		for j := range t.header {
-			w := 1
-			if !op.withoutHeader {
-				w = max(w, text.ByteSize(t.header[j], op.enc))
-			}
-			for _, row := range t.rows {
-				w = max(w, text.ByteSize(row[j].text, op.enc))
-			}
-			w += g.Intn(3)
-			if g.Intn(25) == 0 && w > 1 {
-				w--
-			}
-			start += w
-			op.positions = append(op.positions, start)
-		}
+		op.positions = genPositions(g, t, op)
 	}
 	path := "direct"
 	var data []byte
